@@ -328,9 +328,12 @@ def _generated(fmt: str) -> list[tuple[str, str]]:
         ("gen-zero", hdr + "He\n1\nd\n 0.5 0.5 0.5\n\n 0 2 2\nnot read\n"),
         ("gen-many", hdr + "He\n1\nd\n 0.5 0.5 0.5\n" + " ".join(["1"] * 65) + "\n"),
         ("gen-cell2", "t\n2\n 1 0\n 0 1\n 0 0\nLi\n1\nCart\n 0 0 0\n\n 1 1 1\n 9.5\n"),
+        # Cartesian by the letter `k` with rows of two numbers / without atoms: the shapes tell the mode
+        ("gen-short-k", hdr + " H\n 1\nk\n 0 0\n\n 1 1 1\n 2.5\n"),
     ]
     g["chgcar"] = vasp_grid
-    g["locpot"] = [(n, t) for n, t in vasp_grid if n in ("gen-h2", "gen-cart", "gen-skip", "gen-eof4", "gen-cell2")]
+    g["locpot"] = [(n, t) for n, t in vasp_grid
+                   if n in ("gen-h2", "gen-cart", "gen-skip", "gen-eof4", "gen-cell2", "gen-short-k")]
     g["poscar"] = [
         ("gen-direct", hdr + " Si  C\n 1 1\nDirect\n 0.0 0.0 0.0\n 0.25 0.25 0.25 comment\n"),
         ("gen-sel", "x\n -2.5e0\n 1 0 0\n 0 1 0\n 0 0 1\n Fe O H\n 1 0 2\nselective\ncartesian\n 0 0 0 T T T\n"
@@ -339,6 +342,8 @@ def _generated(fmt: str) -> list[tuple[str, str]]:
         ("gen-short", hdr + " H\n 2\nCart\n 0 0\n 1 1\n"),
         ("gen-ragged", hdr + " H\n 2\nCart\n 0 0\n 1 1 1\n"),
         ("gen-none", hdr + "\n\nCart\n"),
+        ("gen-none-k", hdr + " H\n -1\nSelective\nKartesian\n"),
+        ("gen-short-k", hdr + " H He\n 1 1\nk\n 0 0\n 1 1\n"),
         ("gen-none-d", hdr + " H\n 0\n\n"),
         ("gen-cell4", "t\n1\n 1 0 0 0\n 0 1 0 0\n 0 0 1 0\nB\n1\nDirect\n 0 0 0\n"),
         ("gen-cell0", "t\n1\n\n\n\nB\n1\nCartesian\n 0 0 0\n"),
